@@ -59,4 +59,16 @@ META = {
         "note": "Trusted as C03. The io-reader and value-tree parts are differential tests on the implementation, not theorems.",
         "technique": "Coq proof (nested induction) + correspondence + differential testing of the entry points",
     },
+    "C06": {
+        "text": "Theorems (Coq, closed): for every max-frame-size M >= 512, channel, payload and fitting performative encodings a transfer "
+                "is written as length-prefixed frames each <= M and each with a header, laid out first/middle*/last with payload parts "
+                "concatenating to the payload and all but the last frame exactly M bytes, so start_send's cuts fall on frame boundaries; any "
+                "other performative is one frame or an error; the length-delimited decoder delivers the same frames under every partition "
+                "of the byte stream into reads, and decodes what the encoder wrote. Framing constants are regenerated from the source "
+                "(Tie_FrameConsts). The real Transport's bytes are compared with the model every run and parsed by an independent parser.",
+        "design_ref": "DESIGN.md section 4, C06",
+        "note": "Trusted: Coq kernel, extraction, translator, the model of tokio-util's decoder (validated by running). Fixed defect: "
+                "oversize non-transfer frames were chopped (a2409e6).",
+        "technique": "Coq proof (arithmetic + induction over chunk lists) + regenerated constants + extracted-model-vs-Transport correspondence",
+    },
 }
